@@ -31,6 +31,7 @@ pub fn plan(prop: &str, tier: Tier) -> Option<(&'static str, Vec<Job>)> {
         ],
         "C04" => vec![Job::new("crash", if q { 480 } else { 12_000 }).caches(&["off", "big"]).timeout(600).shrink(40)],
         "C12" => vec![Job::new("conc", if q { 2400 } else { 60_000 }).workers(8).caches(&["off", "big", "tiny"]).shrink(30)],
+        "C20" => vec![Job::new("sdkclients", if q { 320 } else { 10_000 }).shrink(40)],
         "C13" => vec![
             Job::new("wire", if q { 40_000 } else { 1_500_000 }),
             Job::new("catalogue", if q { 600 } else { 20_000 }).caches(&["off", "big"]),
